@@ -26,6 +26,13 @@ def main():
     for e in req.get('earlier_installs', []):
         # an earlier fork at another byte that used the same aliases: the later install takes them over
         T.add_soft_fork(e['code'], e['name'], lambda tape, stack, cache: tape.read(1) and None, e.get('aliases', []))
+    if req.get('earlier_handlers'):
+        # parsing handlers registered for the same name before (a prototype with a two-byte operand): the install replaces them
+        def proto_c(opname, symbols, symbols_to_advance, symbol_index):
+            return (symbols_to_advance + 1, (b'\x00', bytes([int(symbols[0][1:]) & 255])))
+        def proto_d(op_name, tape):
+            return [f'{op_name} d{int.from_bytes(tape.read(2), "big")}']
+        P.add_opcode_parsing_handlers(req['name'], proto_c, proto_d)
     for h in req.get('decompile_before_install', []):
         try: P.decompile_script(bytes.fromhex(h))
         except BaseException: pass
